@@ -179,3 +179,34 @@ Proof.
            Hbs Hdiv (cbc_enc_stream_ok bs E ltac:(lia)) (cbc_dec_stream_ok bs D ltac:(lia)) Hlen Hinv Hf1 Hf2).
 Qed.
 Print Assumptions C19_stream_roundtrip_cbc.
+
+(* ... and with the real cipher, NO premise left: CBC over SM4Spec (the GM/T 0002 specification, which
+   C05_go_cipher_is_sm4 proves sm4.NewCipher / Encrypt / Decrypt compute; Pad/SM4CBC.v uses the inversion
+   lemma of SM4/ModesProofs.v, which holds on byte-valued blocks, and Pad/CBCBytes.v threads the byte
+   invariant through CBC).  Neither file depends on tables regenerated from the source, so this corollary
+   cannot be broken by a change to sm4.go (C05/C11 report those).  The driver's X cases run exactly this
+   composition on /repo (sm4.NewCipher + cipher.NewCBCEncrypter/Decrypter + P7BlockEnc / P7BlockDecrypt). *)
+From GmsmVerif Require Import Pad.SM4CBC SM4.SM4Spec.
+Local Open Scope nat_scope.
+
+Theorem C19_stream_roundtrip_sm4_cbc :
+  forall key iv data sched1 sched2 fuel1 fuel2,
+    length iv = 16 -> bytes_ok iv = true -> bytes_ok data = true ->
+    fuel1 >= length (pkcs7_pad 16 data) / BUF + length sched1 + 3 ->
+    fuel2 >= length (pkcs7_pad 16 data) / BUF + length sched2 + 3 ->
+    exists ct, p7_block_enc 16 (cbc_enc 16 (sm4_encrypt_block key)) fuel1 iv (mkSrc data sched1) = Ok ct /\
+               p7_block_decrypt 16 (cbc_dec 16 (sm4_decrypt_block key)) fuel2 iv (mkSrc ct sched2) = Ok data.
+Proof. exact sm4_cbc_stream_roundtrip. Qed.
+Print Assumptions C19_stream_roundtrip_sm4_cbc.
+
+(* a concrete instance, computed: GM/T 0002 example key, 20 bytes, ragged schedules on both sides *)
+Example C19_sm4_cbc_example :
+  let key := [0x01;0x23;0x45;0x67;0x89;0xab;0xcd;0xef;0xfe;0xdc;0xba;0x98;0x76;0x54;0x32;0x10]%N in
+  let iv := repeat 0%N 16 in
+  let data := [1;2;3;4;5;6;7;8;9;10;11;12;13;14;15;16;17;18;19;20]%N in
+  match p7_block_enc 16 (cbc_enc 16 (sm4_encrypt_block key)) 9 iv (mkSrc data [(3,false);(0,false);(7,false)]) with
+  | Ok ct => length ct = 32 /\
+             p7_block_decrypt 16 (cbc_dec 16 (sm4_decrypt_block key)) 9 iv (mkSrc ct [(5,false);(1,true)]) = Ok data
+  | _ => False
+  end.
+Proof. vm_compute. split; reflexivity. Qed.
